@@ -58,7 +58,7 @@ def gen_case(rng):
                 terms.append({"kind": "call", "mid": mid, "opener": "next" if ordered else rng.choice(["each", "each", "some"]),
                               "pat": {"matcher": mask, "dbg": fresh(), "ops": ops}})
     # T::m2 (mid 2) is provided AND has a registered real function (unmock_with entry at its own position); T::m3 is provided only
-    provided = rng.sample([14, 15, 16, 17, 18, 19, 24, 30, 34, 2, 3], rng.randint(0, 2))
+    provided = rng.sample([14, 15, 16, 17, 18, 19, 24, 30, 34, 35, 2, 3], rng.randint(0, 2))
     for mid in provided:
         how = rng.choice(["dfl", "dfl", "ret", "partial_mask"])
         if how == "dfl":
@@ -150,7 +150,7 @@ def run(tier, seed):
             if e["base"][0] == "call":
                 m = e["base"][2]
                 dist["call:" + {10: "r0", 11: "r1", 14: "p_ref", 15: "p_mut", 16: "p_val", 17: "p_rc(sole)", 18: "p_arc(sole)", 23: "r_rc(sole)", 27: "p_rc(sole+weak)", 28: "p_arc(sole+weak)", 24: "p_rc2(sole)", 25: "r_rc(kept)", 26: "p_rc2(kept)",
-                                 19: "p_pin", 21: "p_rc(kept)", 22: "p_arc(kept)", 29: "r_arc(sole)", 30: "p_arc2(sole)", 33: "r_val", 34: "p_val2", 31: "r_arc(kept)", 32: "p_arc2(kept)", 2: "T::m2(default+real fn)", 3: "T::m3(default)"}.get(m, str(m))] += 1
+                                 19: "p_pin", 21: "p_rc(kept)", 22: "p_arc(kept)", 29: "r_arc(sole)", 30: "p_arc2(sole)", 33: "r_val", 34: "p_val2", 35: "p_rc3(sole, helper shared)", 31: "r_arc(kept)", 32: "p_arc2(kept)", 2: "T::m2(default+real fn)", 3: "T::m3(default)"}.get(m, str(m))] += 1
                 if m >= 14:
                     dist[f"body-calls={e['base'][3] % 4}"] += 1
     cov = {"obligations": len(obligations) + 1, "discharged": len(obligations) + (0 if bad else 1),
